@@ -27,6 +27,7 @@ META = dict(
     required_hits=["raw_safe_dumped", "reloaded_compared", "interpolator_observed"],
     max_inconclusive_frac=0.05,
 )
+META["level_text"] += ' Generated classes contain Optional fields with a non-None default carrying explicit None values.'
 
 
 # ---------------------------------------------------------------- comparison
